@@ -591,3 +591,61 @@ fn verif_cex_byte_granular_drains() {
         }
     }
 }
+
+#[test]
+fn verif_cex_read_input_method_equals_the_others() {
+    // C01/C02/C17: pieces that arrive through encode_read / decode_read (the anchored path: bytes read into the
+    // arena and encoded / decoded by reference) give the same bytes as any other input method.  Every input over
+    // {FD, FE, 41} of length <= 6, cut into pieces of 1, 2, 3 bytes and at every 2-way cut; the reader is the slice.
+    let many = std::num::NonZeroUsize::new(64).unwrap();
+    strings(&[0xfd, 0xfe, 0x41], 6, &mut |x: &[u8]| {
+        let want = ref_enc(x, 252, 64008);
+        let mut cuts: Vec<Vec<usize>> = (0..=x.len()).map(|c| vec![c]).collect();
+        for step in 1..=3usize {
+            cuts.push((1..).map(|k| k * step).take_while(|c| *c < x.len()).collect());
+        }
+        for cs in &cuts {
+            let mut pieces: Vec<&[u8]> = Vec::new();
+            let mut at = 0;
+            for &c in cs.iter().chain(std::iter::once(&x.len())) {
+                let c = c.min(x.len());
+                pieces.push(&x[at..c]);
+                at = c;
+            }
+            // encoder: every piece through encode_read
+            let mut e = Encoder::new();
+            for p in &pieces {
+                match e.encode_read(*p, p.len(), many) {
+                    Ok(n) if n == p.len() => {}
+                    other => report("encode-read-short", x, &format!("{:?}", cs), &format!("{:?}", other.map_err(|e| e.kind())), &format!("Ok({})", p.len())),
+                }
+            }
+            let got = e.finish().flatten().expect("no backpatch left");
+            if got != want {
+                report("encode-read-differs-from-encode", x, &format!("{:?}", cs), &hex(&got), &hex(&want));
+            }
+            // decoder: the encoded stream through decode_read, cut at the same relative places
+            let y = &want;
+            let mut d = Decoder::new();
+            let mut at = 0;
+            let mut ok = true;
+            for &c in cs.iter().chain(std::iter::once(&x.len())) {
+                let yc = ((c.min(x.len())) * y.len()) / x.len().max(1);
+                let yc = yc.max(at).min(y.len());
+                let piece = &y[at..yc];
+                at = yc;
+                if d.decode_read(piece, piece.len(), many).is_err() {
+                    ok = false;
+                    break;
+                }
+            }
+            if ok && at < y.len() {
+                ok = d.decode_read(&y[at..], y.len() - at, many).is_ok();
+            }
+            let back = if ok { d.finish().ok().map(|v| v.flatten().expect("flat")) } else { None };
+            if back.as_deref() != Some(x) {
+                report("decode-read-differs-from-decode", x, &format!("{:?}", cs), &format!("{:?}", back.map(|v| hex(&v))), &hex(x));
+            }
+        }
+    });
+}
